@@ -742,7 +742,14 @@ def lift_one(d, repo, canary=False, rename_suffix=None):
         spans = locate_impl(src, kind, h['impl'])
     else:
         spans = [(0, len(src))]
-    fn_kw, b_open, b_close = locate_fn(src, kind, h['fn'], spans)
+    if 'block' in h:
+        # L7: a block expression that is not a function body (e.g. the initialiser of a lazy_static item), located by
+        # the text that precedes it; it becomes the body of a function with the signature given by as=
+        h = dict(h)
+        h.setdefault('fn', h.get('name', 'block'))
+        fn_kw, b_open, b_close = 0, 0, len(src) - 1
+    else:
+        fn_kw, b_open, b_close = locate_fn(src, kind, h['fn'], spans)
     info = {
         'name': h.get('name', h['fn']), 'file': rel, 'fn': h['fn'], 'impl': h.get('impl'),
         'rules': {}, 'subs': [], 'woven': [], 'labels': {},
@@ -751,7 +758,13 @@ def lift_one(d, repo, canary=False, rename_suffix=None):
     def line_of(off):
         return src.count('\n', 0, off) + 1
 
-    if 'arm' in h:
+    if 'block' in h:
+        a_open, a_close = locate_arm(src, kind, (0, len(src)), h['block'])
+        span = (a_open, a_close + 1)
+        sig = h['as']
+        body = LText(src[a_open:a_close + 1], line_of(a_open))
+        info['block'] = h['block']
+    elif 'arm' in h:
         a_open, a_close = locate_arm(src, kind, (b_open, b_close), h['arm'])
         span = (a_open, a_close + 1)
         sig = h['as']
